@@ -273,6 +273,29 @@ let () = register "queue" (fun f ->
     String.concat " " (List.rev (Printf.sprintf "max=%d" !maxitems :: !parts))
   | _ -> failwith "queue: bad case")
 
+(* ---- EOF retry (C13) ---- *)
+let parse_script (s : string) : rstep list =
+  if s = "-" then [] else
+  List.map (fun st ->
+    if String.length st > 2 && String.sub st 0 2 = "d:" then RData (bytes_of_hex (String.sub st 2 (String.length st - 2)))
+    else if st = "eof" then REof else if st = "timeout" then RTimeout else if st = "err" then ROther
+    else if String.length st > 6 && String.sub st 0 6 = "sleep:" then RSleep (n_of_int (int_of_string (String.sub st 6 (String.length st - 6))))
+    else failwith ("bad step " ^ st)) (String.split_on_char ';' s)
+
+(* eofretry <script> <tolerance ms> <wait ms>  ->  err=<kind> msgs=<type,raw;..> closed=1 *)
+let () = register "eofretry" (fun f ->
+  match f with
+  | [_; script; tol; wait] ->
+    let (bytes, why) = run_reader (n_of_int (int_of_string tol)) (n_of_int (int_of_string wait)) (parse_script script) in
+    let kind = match why with StopEOF -> "eof" | StopTimeout -> "timeout" | StopOther -> "other" | StopNone -> "nil" in
+    let h = new_handler (z_of_int 1683720000000000000) in
+    (match handle_stream h bytes with
+     | Ok (ms, _) ->
+       let l = List.map (fun m -> Printf.sprintf "%d,%s" (int_of_z m.mtype) (hex_of_bytes m.raw)) ms in
+       Printf.sprintf "err=%s msgs=%s closed=1" kind (dash (String.concat ";" l))
+     | Err e -> "err " ^ err_name e | Panic -> "panic")
+  | _ -> failwith "eofretry: bad case")
+
 let () =
   if Array.length Sys.argv < 2 then (prerr_endline "usage: model <property> < cases"; exit 2);
   let r = try Hashtbl.find runners Sys.argv.(1) with Not_found -> (prerr_endline "model: unknown property"; exit 2) in
